@@ -127,7 +127,12 @@ def real(path):
     try:
         return os.path.realpath(path)
     except (OSError, ValueError):
+        pass
+    try:
         return os.path.abspath(path)
+    except OSError:
+        # the process's working directory itself has been removed (by the code under test)
+        return os.path.join(os.sep, 'working-directory-removed', path if isinstance(path, str) else os.fsdecode(path))
 
 
 def tree_signature(top, exclude=()):
